@@ -24,6 +24,7 @@ import Ajson.Proofs.Steps
 import Ajson.Proofs.CloneValue
 import Ajson.Proofs.CellsSteps
 import Ajson.Proofs.EqSymm
+import Ajson.Proofs.UnpackCanon
 import Ajson.Model.Decode
 import Ajson.Spec.WF
 
@@ -140,6 +141,15 @@ theorem C14_eq_says_equal {h : Heap} (hs : Struct h) (ha : Acyc h) (c : CellsAll
   have evc : absVal ((h.clone n).1.size + 1) (h.clone n).1 (h.clone n).2 = some v := by rw [e1]; exact ev
   have r := jvalEq_refl_nodes _ _ s' n v hn' evn nn
   exact ⟨by rw [eq_value _ n _ v v s' c' hn' hr' evn evc, r], by rw [eq_value _ _ n v v s' c' hr' hn' evc evn, r]⟩
+
+/-- **`Unpack` of the copy is `Unpack` of the original**, as single values: right after `Clone()`, with any fuel, both answer the same
+value or both fail (`Unpack` answers exactly the canonical form of the denoted value on every sound heap — C05 — and the two nodes
+denote the same value) -/
+theorem C14_unpack_same {h : Heap} (hs : Struct h) (ha : Acyc h) (n : Nat) (hn : n < h.size) (fuel : Nat) (v : JVal) :
+    ((h.clone n).1.unpack fuel (h.clone n).2).2 = .ok v ↔ ((h.clone n).1.unpack fuel n).2 = .ok v := by
+  obtain ⟨s', _, hlt, hroot⟩ := clone_sound hs ha n hn
+  obtain ⟨e1, e2⟩ := clone_same_value hs ha n hn fuel
+  rw [unpack_iff_value fuel _ _ v s' (by rw [hroot]; exact hlt), unpack_iff_value fuel _ n v s' (Nat.lt_trans hn hlt), e1, e2 n hn]
 
 /-- **the copy is a sound tree of its own**: after `Clone()` of any node of any sound acyclic heap the whole heap — the original,
 every other tree in play, and the copy — satisfies the structural invariant again and has no cycles: every node of the copy lists
